@@ -108,6 +108,45 @@ def judge_writer(line, out):
     return ("HOLD", "decodes to the value in the most compact format") if ok else ("FAIL", "independent decoder reads %r (%d bytes)" % (v, len(b)))
 
 
+def tree_cases(rng, tier):
+    n = 2500 if tier == "quick" else 40000
+    cases, expect = [], {}
+    fixed = ["[b0102;b90]", "[[b-];[b01;bff]]", "{s61=[b0102;b90]}", "[]", "{}", "s-", "b-", "[[];{};[[]]]",
+             "[" + ";".join("iu8:+%x" % i for i in range(16)) + "]", "[" + ";".join("b%02x" % i for i in range(17)) + "]"]
+    for t in fixed:
+        for k in "ms":
+            cases.append("sv %s %s" % (k, t))
+    for _ in range(n):
+        t, v = rand_tree_top(rng)
+        line = "sv %s %s" % (rng.choice("ms"), t)
+        cases.append(line)
+        expect[line] = v
+    return cases, expect
+
+
+def rand_tree_top(rng):
+    return M.rand_tree(rng)
+
+
+def judge_tree(expect):
+    def judge(line, out):
+        if out.startswith("ERR"):
+            return "FAIL", "save raised %s" % out
+        try:
+            b = bytes.fromhex(out) if out != "-" else b""
+            v, i = M.dec_value(b)
+        except (ValueError, M.Bad) as e:
+            return "FAIL", "output is not a well-formed MessagePack object (%s)" % e
+        if i != len(b):
+            return "FAIL", "more than one object emitted (%d of %d bytes decoded)" % (i, len(b))
+        if line in expect:
+            if v != expect[line]:
+                return "FAIL", "independent decoder recovers %r, the saved value denotes %r" % (v, expect[line])
+            return "HOLD", "decodes to the saved value"
+        return "UNKNOWN", "no expected value recorded for this case"
+    return judge
+
+
 def reader_cases(rng, tier, kinds=("m", "s"), skip_only=False):
     n = 1500 if tier == "quick" else 20000
     cases = []
@@ -224,6 +263,21 @@ def judge_reader(line, out):
                 exp = "OK nan %d" % i
         elif isinstance(v, tuple) and v[0] in ("f32", "f64"):
             return "UNKNOWN", "width conversion (judged by the model only)"
+        else:
+            exp = "NOT %d" % i if v is None else mism
+    elif op == "ts":
+        if isinstance(v, tuple) and v[0] == "ext" and v[1] == 0xFF and len(v[2]) in (4, 8, 12):
+            p = v[2]
+            if len(p) == 4:
+                secs, nanos = int.from_bytes(p, "big"), 0
+            elif len(p) == 8:
+                d = int.from_bytes(p, "big")
+                secs, nanos = d & ((1 << 34) - 1), d >> 34
+            else:
+                nanos, secs = int.from_bytes(p[:4], "big"), int.from_bytes(p[4:], "big", signed=True)
+            exp = "OK %s,%s %d" % (M.shex(secs), M.shex(nanos), i)
+        elif isinstance(v, tuple) and v[0] == "ext" and v[1] == 0xFF:
+            exp = "ERR P"
         else:
             exp = "NOT %d" % i if v is None else mism
     else:
